@@ -6,7 +6,10 @@ open Biogo.Properties.C08_aff
 #print axioms nwAffine_opt_partial
 #print axioms swAffine_opt_partial
 #print axioms fittedAffine_opt_partial
+#print axioms fittedAffine_opt_restricted
+#print axioms fittedRestricted_yardstick
 #print axioms fittedAffine_not_opt
+#print axioms fittedAffine_side_condition_insufficient
 #print axioms nwAffine_not_opt
 #print axioms noAdj_suffices
 #print axioms nwAffine_opt_of_side_condition
